@@ -9,6 +9,7 @@ import DaskModel.Model.ExecGraph
 import DaskModel.Model.OrderIO
 import DaskModel.Model.RenameIO
 import DaskModel.Model.SpecOptIO
+import DaskModel.Model.LegacyInlineIO
 open Dask
 
 namespace GraphDrv
@@ -251,5 +252,6 @@ def table : List (String × Handler) :=
    ("clone_legacy", TermDrv.hCloneLegacy), ("clone_spec", TermDrv.hCloneSpec),
    ("checkpoint_reduce", TermDrv.hCheckpointReduce)]
   ++ Dask.Order.ioHandlers ++ Dask.TaskTerm.renameIoHandlers ++ Dask.TaskTerm.specIoHandlers
+  ++ Dask.TaskTerm.inlineIoHandlers
 
 def main : IO Unit := runDriver table
